@@ -1393,7 +1393,58 @@ macro_rules! rwr {
     }};
 }
 
+/// the hardware (here: the emulated CPU, poked from outside the function) changes a register between two reads of
+/// one function: page fault -> CR2, debug exception -> DR6, another agent -> any register
+#[inline(never)]
+fn poke(reg: Reg, v: u64) {
+    set(reg, v)
+}
+macro_rules! rxr {
+    ($out:expr, $name:expr, $reg:expr, $p:expr, $x:expr, $rd:expr) => {{
+        #[inline(never)]
+        #[allow(unused_unsafe)]
+        fn go(x: u64) -> (u64, u64) {
+            unsafe {
+                let r1: u64 = $rd;
+                poke($reg, x);
+                let r2: u64 = $rd;
+                (r1, r2)
+            }
+        }
+        let (p, x): (u64, u64) = ($p, $x);
+        set($reg, p);
+        cpu::drain();
+        let got = catch(|| go(x));
+        cpu::drain();
+        let (r1, r2) = got.unwrap_or((0, 0));
+        $out.emit(Ev::new("rwr").str("name", $name).w("p", p).w("x", x).str("k", if got.is_some() { "ok" } else { "panic" }).words("r", &[r1, r2]));
+    }};
+}
+
+fn run_rxr(out: &mut Out, r: &mut Rng) {
+    for _k in 0..4 {
+        let ca = |r: &mut Rng| VirtAddr::new_truncate(r.next()).as_u64();
+        rxr!(out, "x Cr0", Reg::Cr(0), r.next(), r.next(), Cr0::read_raw());
+        rxr!(out, "x Cr2 raw", Reg::Cr(2), r.next(), r.next(), Cr2::read_raw());
+        rxr!(out, "x Cr2", Reg::Cr(2), ca(r), ca(r), Cr2::read().map(|a| a.as_u64()).unwrap_or(1));
+        rxr!(out, "x Cr3", Reg::Cr(3), r.next() & 0x000f_ffff_ffff_f000, r.next() & 0x000f_ffff_ffff_f000, Cr3::read_raw().0.start_address().as_u64());
+        rxr!(out, "x Cr4", Reg::Cr(4), r.next(), r.next(), Cr4::read_raw());
+        rxr!(out, "x Dr0", Reg::Dr(0), r.next(), r.next(), Dr0::read());
+        rxr!(out, "x Dr6", Reg::Dr(6), r.next(), r.next(), Dr6::read_raw());
+        rxr!(out, "x Dr6 typed", Reg::Dr(6), Dr6Flags::from_bits_truncate(r.next()).bits(), Dr6Flags::from_bits_truncate(r.next()).bits(), Dr6::read().bits());
+        rxr!(out, "x Dr7", Reg::Dr(7), r.next(), r.next(), Dr7::read_raw());
+        rxr!(out, "x Efer", Reg::Msr(EFER), r.next(), r.next(), Efer::read_raw());
+        rxr!(out, "x FsBase", Reg::Msr(FSBASE), ca(r), ca(r), FsBase::read().as_u64());
+        rxr!(out, "x GsBase", Reg::Msr(GSBASE), ca(r), ca(r), GsBase::read().as_u64());
+        rxr!(out, "x KernelGsBase", Reg::Msr(KGSBASE), ca(r), ca(r), KernelGsBase::read().as_u64());
+        rxr!(out, "x LStar", Reg::Msr(LSTAR), ca(r), ca(r), LStar::read().as_u64());
+        rxr!(out, "x SFMask", Reg::Msr(SFMASK), RFlags::from_bits_truncate(r.next()).bits(), RFlags::from_bits_truncate(r.next()).bits(), SFMask::read().bits());
+        rxr!(out, "x Msr", Reg::Msr(0xc000_0103), r.next(), r.next(), Msr::new(0xc000_0103).read());
+    }
+}
+
 fn run_rwr(out: &mut Out, r: &mut Rng) {
+    run_rxr(out, r);
     for _k in 0..4 {
         let ca = |r: &mut Rng| VirtAddr::new_truncate(r.next()).as_u64();
         rwr!(out, "Cr0", Reg::Cr(0), Cr0Flags::from_bits_truncate(r.next()).bits(), Cr0Flags::from_bits_truncate(r.next()).bits(),
